@@ -194,3 +194,23 @@ package momentum
 //@ ensures[C04] forall kk :: 0 <= kk && kk < len(result) ==> hor(result, kk) <= max(hor(highs, kk + (w.IdlePeriod())), max(hor(lows, kk + (w.IdlePeriod())), hor(closings, kk + (w.IdlePeriod()))))
 //@ ensures[C01] "formula" forall k :: 0 <= k && k < len(result) ==> result[k] == (wmaxS(highs, k, k + w.Max.Period) - closings[k + w.Max.Period - 1]) / (wmaxS(highs, k, k + w.Max.Period) - wminS(lows, k, k + w.Max.Period)) * (0 - 100)
 //@ ensures[C15] "range" forall k :: 0 <= k && k < len(result) && lows[k + w.Max.Period - 1] <= closings[k + w.Max.Period - 1] && closings[k + w.Max.Period - 1] <= highs[k + w.Max.Period - 1] && wminS(lows, k, k + w.Max.Period) < wmaxS(highs, k, k + w.Max.Period) ==> 0 - 100 <= result[k] && result[k] <= 0
+
+// ---- C18: scaling of the momentum formulas -----------------------------------------------------------------------
+//@ lemma medS_pscale(h stream, l stream, h2 stream, l2 stream, lam real, j int)
+//@ requires[C18] h2[j] == lam * h[j] && l2[j] == lam * l[j]
+//@ ensures[C18] medS(h2, l2)[j] == lam * medS(h, l)[j]
+//@ use mul_lin(lam, h[j], l[j])
+//@ use div_scale(lam, h[j] + l[j], 2)
+//@ lemma aoS_pscale(h stream, l stream, h2 stream, l2 stream, lam real, Ps int, Pl int, n int, k int)
+//@ requires[C18] 1 <= Ps && Ps <= Pl && 0 <= k && k + Pl <= n && (forall i :: 0 <= i && i < n ==> h2[i] == lam * h[i] && l2[i] == lam * l[i])
+//@ ensures[C18] aoS(h2, l2, Ps, Pl)[k] == lam * aoS(h, l, Ps, Pl)[k]
+//@ use forall i :: medS_pscale(h, l, h2, l2, lam, i)
+//@ use smaS_scale(medS(h, l), medS(h2, l2), lam, Ps, k + Pl - Ps)
+//@ use smaS_scale(medS(h, l), medS(h2, l2), lam, Pl, k)
+//@ use mul_lin(lam, smaS(medS(h, l), Ps)[k + Pl - Ps], smaS(medS(h, l), Pl)[k])
+//@ lemma stochRsiS_pscale(c stream, d stream, lam real, P int, W int, n int, k int)
+//@ requires[C18] lam > 0 && P >= 1 && W >= 1 && 0 <= k && k + W + P <= n && (forall i :: 0 <= i && i < n ==> d[i] == lam * c[i]) && (forall j :: k <= j && j < k + W ==> rmaS(lossS(c), P, j) != 0)
+//@ ensures[C18] stochRsiS(d, P, W)[k] == stochRsiS(c, P, W)[k]
+//@ use[cond] rsiS_scale(c, d, lam, P, _)
+//@ use wmax_cong(rsiS(d, P), rsiS(c, P), k, k + W)
+//@ use wmin_cong(rsiS(d, P), rsiS(c, P), k, k + W)
